@@ -199,8 +199,10 @@ def _status(res, func, st, out, case):
     if st == 'ok':
         return True
     if st == 'timeout':
-        func = base
-        res['stats']['timeout:' + func] = res['stats'].get('timeout:' + func, 0) + 1
+        # the models of these routines are proved total (C03: *_total theorems): a call that still has not returned after the
+        # 10x retry of common.call is a verdict ('does not return'), not a skipped case
+        res['stats']['timeout:' + base] = res['stats'].get('timeout:' + base, 0) + 1
+        res['fails'].append((base, 'does-not-return', {'after_s': 'budget x10'}))
     else:
         res['fails'].append((func, 'raises', {'exception': out}))
     return False
@@ -230,7 +232,7 @@ def _cmp_flag(res, func, R, D, oracle):
         res['fails'].append((func, 'reach-flag', {'R': istr(R), 'D': mstr(D)}))
 
 
-def _cmp_hops(res, func, H, dist, best, tol=0.0):
+def _cmp_hops(res, func, H, dist, best, tol=0.0, condf=None):
     n = len(dist)
     for i in range(n):
         for j in range(n):
@@ -240,56 +242,81 @@ def _cmp_hops(res, func, H, dist, best, tol=0.0):
                 if H[i, j] != 0:
                     res['fails'].append((func, 'edge-count', {'i': i, 'j': j, 'hops': float(H[i, j]), 'why': 'unreachable pair must have 0'})); return
             elif not hopcount_ok(best, dist[i, j], i, j, H[i, j], tol):
-                res['fails'].append((func, 'edge-count', {'i': i, 'j': j, 'hops': float(H[i, j]), 'dist': float(dist[i, j])})); return
+                info = {'i': i, 'j': j, 'hops': float(H[i, j]), 'dist': float(dist[i, j])}
+                if condf is not None:
+                    info['cond'] = condf(i, j)
+                res['fails'].append((func, 'edge-count', info)); return
 
 
-def exact_tie(A, transform):
-    """Does the graph have, for some ordered pair, two different walks of exactly equal minimum length in exact
-    arithmetic (two simple paths, or — with zero-length connections — a cycle of total length 0)?  ('log': lengths -ln w, so compare products of the rational weights; otherwise sums of the decimal
-    lengths.)  Only such ties can be decided differently by float rounding, which scopes known finding
-    C12-retrieve-float-rounding; computed lazily for failing inexact-float cases (n <= 10)."""
+def tie_info(A, transform):
+    """Exact-arithmetic picture of the graph, used only to scope the float-rounding known findings (lazily, n <= 10):
+    val[a][b] = exact optimum from a to b over simple paths ('log': the largest product of the rational weights, i.e. the
+    smallest -ln; otherwise the smallest sum of the decimal lengths), cnt[a][b] = number of simple paths attaining it,
+    zc = nodes lying on a cycle of zero-length connections ('log' with weights exactly 1)."""
     from fractions import Fraction as Fr
     A = np.asarray(A, dtype=float); n = len(A)
     W = [[Fr(str(float(A[i, j]))).limit_denominator(10 ** 6) for j in range(n)] for i in range(n)]
     islog = transform == 'log'
+    zc = set()
     if islog:
-        # a cycle of zero-length connections (weights exactly 1) makes every walk through it tie with infinitely many longer walks
         Z = (A == 1)
         reach = Z.copy()
         for k in range(n):
             reach = reach | (reach[:, [k]] & reach[[k], :])
-        if np.any(np.diag(reach)):
-            return True
+        zc = {i for i in range(n) if reach[i, i]}
+    val = [[None] * n for _ in range(n)]; cnt = [[0] * n for _ in range(n)]
     for s0 in range(n):
-        best = {}      # target -> (value, count)
-        def better(a, b):
-            return a > b if islog else a < b
+        best = {}
         stack = [(s0, Fr(1) if islog else Fr(0), 1 << s0)]
         while stack:
-            u, val, seen = stack.pop()
+            u, v0, seen = stack.pop()
             for v in range(n):
                 if W[u][v] == 0 or (seen >> v) & 1:
                     continue
-                nv = val * W[u][v] if islog else val + W[u][v]
+                nv = v0 * W[u][v] if islog else v0 + W[u][v]
                 b = best.get(v)
-                if b is None or better(nv, b[0]):
+                if b is None or (nv > b[0] if islog else nv < b[0]):
                     best[v] = (nv, 1)
                 elif nv == b[0]:
                     best[v] = (nv, b[1] + 1)
                 else:
                     continue           # a prefix of a minimum-length path has minimum length itself: prune
                 stack.append((v, nv, seen | (1 << v)))
-        if any(c > 1 for _, c in best.values()):
+        for v, (x, c) in best.items():
+            val[s0][v] = x; cnt[s0][v] = c
+        val[s0][s0] = Fr(1) if islog else Fr(0)
+    return {'val': val, 'cnt': cnt, 'zc': zc, 'log': islog, 'n': n}
+
+
+def _comb(info, x, y):
+    return None if x is None or y is None else (x * y if info['log'] else x + y)
+
+
+def pair_tie(info, s, t, returned=()):
+    """Pair-level tie: some node a on an exact optimal s->t path (or on the returned sequence, or s itself) has two
+    different exact-optimal walks to the same target t: two optimal simple paths a->t, or an optimal a->t route through a
+    node of a zero-length cycle. Only then can rounding decide (a,t) differently from (s,t) and break hops/Pmat for (s,t)."""
+    val, cnt, n = info['val'], info['cnt'], info['n']
+    if val[s][t] is None:
+        return False
+    cand = {s} | {int(x) for x in returned if 0 <= int(x) < n}
+    cand |= {a for a in range(n) if _comb(info, val[s][a], val[a][t]) == val[s][t]}
+    for a in cand:
+        if a == t or val[a][t] is None:
+            continue
+        if cnt[a][t] > 1:
+            return True
+        if any(_comb(info, val[a][c], val[c][t]) == val[a][t] for c in info['zc']):
             return True
     return False
 
 
-def _float_cond(exact, A, transform, cache):
+def _float_cond(exact, A, transform, cache, s, t, returned=()):
     if exact:
         return {'inexact_floats': False, 'exact_tie': False}
-    if 'tie' not in cache:
-        cache['tie'] = bool(exact_tie(A, transform))
-    return {'inexact_floats': True, 'exact_tie': cache['tie']}
+    if 'info' not in cache:
+        cache['info'] = tie_info(A, transform)
+    return {'inexact_floats': True, 'exact_tie': bool(pair_tie(cache['info'], s, t, returned))}
 
 
 def _floyd_block(bct, res, case, A, transform, Lm, oracle, best, tol, exact, rout=True):
@@ -297,25 +324,26 @@ def _floyd_block(bct, res, case, A, transform, Lm, oracle, best, tol, exact, rou
     Lm = the true length matrix, oracle = closure, best = exact-k table"""
     n = len(A)
     name = 'distance_wei_floyd' + ('' if transform is None else ':' + transform)
-    st, out = call(bct.distance_wei_floyd, _rep(A, case, allow_int=transform is None), transform, t=5)
+    st, out = call(bct.distance_wei_floyd, _rep(A, case, allow_int=transform is None), transform, t=5, retry=10)
     if not _status(res, name, st, out, case):
         return
     SPL, hops, Pmat = out
     SPL = np.asarray(SPL, dtype=float); hops = np.asarray(hops, dtype=float); Pmat = np.asarray(Pmat)
     _cmp_dist(res, name, SPL, oracle, tol)
-    _cmp_hops(res, name, hops, oracle, best, tol)
+    tie_cache = {}
+    _cmp_hops(res, name, hops, oracle, best, tol, condf=lambda i, j: _float_cond(exact, A, transform, tie_cache, i, j))
     paths = []
     npaths = 0
-    tie_cache = {}
     for s in range(n):
         for t in range(n):
-            st2, p = call(bct.retrieve_shortest_path, s, t, hops, Pmat, t=3)
+            st2, p = call(bct.retrieve_shortest_path, s, t, hops, Pmat, t=3, retry=10)
             res['stats']['calls:retrieve_shortest_path'] = res['stats'].get('calls:retrieve_shortest_path', 0) + 1
             if st2 != 'ok':
                 if st2 == 'exc':
                     res['fails'].append(('retrieve_shortest_path', 'raises', {'s': s, 't': t, 'transform': transform, 'exception': p}))
                 else:
                     res['stats']['timeout:retrieve_shortest_path'] = res['stats'].get('timeout:retrieve_shortest_path', 0) + 1
+                    res['fails'].append(('retrieve_shortest_path', 'does-not-return', {'s': s, 't': t, 'transform': transform}))
                 if s != t:
                     paths.append(None)
                 continue
@@ -331,7 +359,7 @@ def _floyd_block(bct, res, case, A, transform, Lm, oracle, best, tol, exact, rou
             unreachable = math.isinf(oracle[s, t])
             if (len(plist) == 0) != unreachable:
                 res['fails'].append(('retrieve_shortest_path', 'empty-iff-unreachable', {'s': s, 't': t, 'transform': transform, 'path': plist, 'dist': fstr(oracle[s, t]),
-                                                                                         'cond': _float_cond(exact, A, transform, tie_cache)}))
+                                                                                         'cond': _float_cond(exact, A, transform, tie_cache, s, t, plist)}))
             elif plist:
                 npaths += 1
                 bad = check_path(plist, s, t, Lm, hops[s, t], SPL[s, t], tol)
@@ -340,7 +368,7 @@ def _floyd_block(bct, res, case, A, transform, Lm, oracle, best, tol, exact, rou
                 if bad:
                     res['fails'].append(('retrieve_shortest_path', bad, {'s': s, 't': t, 'transform': transform, 'path': plist,
                                                                            'hops': float(hops[s, t]), 'SPL': fstr(SPL[s, t]),
-                                                                           'cond': _float_cond(exact, A, transform, tie_cache)}))
+                                                                           'cond': _float_cond(exact, A, transform, tie_cache, s, t, plist)}))
     res['stats']['paths_checked'] = res['stats'].get('paths_checked', 0) + npaths
     if rout:
         _charpath_block(bct, res, case, SPL, oracle, name, lean=exact and transform is not None)
@@ -356,7 +384,7 @@ def _floyd_block(bct, res, case, A, transform, Lm, oracle, best, tol, exact, rou
             res['stats']['floyd_line_without_paths'] = res['stats'].get('floyd_line_without_paths', 0) + 1
         res['lines'].append((line, spec))
     if n >= 2 and rout:
-        st, out = call(bct.rout_efficiency, np.array(A, dtype=float), transform, t=5)
+        st, out = call(bct.rout_efficiency, np.array(A, dtype=float), transform, t=5, retry=10)
         rname = 'rout_efficiency' + ('' if transform is None else ':' + transform)
         if _status(res, rname, st, out, case):
             GE, Erout, _ = out
@@ -405,7 +433,7 @@ def _charpath_block(bct, res, case, D, oracle, fname, lean=True):
         for incinf in (True, False):
             Din = _rep(D, case, allow_int=False)
             D0 = Din.copy()
-            st, out = call(bct.charpath, Din, incdiag, incinf, t=3)
+            st, out = call(bct.charpath, Din, incdiag, incinf, t=3, retry=10)
             if not _status(res, 'charpath', st, out, case):
                 continue
             if not np.array_equal(Din, D0, equal_nan=True):
@@ -463,21 +491,21 @@ def _run_bin(bct, case, res):
     res['stats']['multihop'] = int(np.any(np.isfinite(oracle) & (oracle >= 2)))
     Aline = mstr(A)
     outs = {}
-    st, out = call(bct.distance_bin, _rep(A, case), t=5)
+    st, out = call(bct.distance_bin, _rep(A, case), t=5, retry=10)
     if _status(res, 'distance_bin', st, out, case):
         outs['distance_bin'] = np.asarray(out, dtype=float)
         _cmp_dist(res, 'distance_bin', out, oracle)
-    st, out = call(bct.breadthdist, _rep(A, case), t=5)
+    st, out = call(bct.breadthdist, _rep(A, case), t=5, retry=10)
     if _status(res, 'breadthdist', st, out, case):
         R, D = out; outs['breadthdist'] = (np.asarray(R), np.asarray(D, dtype=float))
         _cmp_dist(res, 'breadthdist', D, oracle, diag_zero=False)
         _cmp_flag(res, 'breadthdist', R, D, oracle)
-    st, out = call(bct.reachdist, _rep(A, case, allow_int=False), t=5)      # float only: it stores inf into a copy of its argument
+    st, out = call(bct.reachdist, _rep(A, case, allow_int=False), t=5, retry=10)      # float only: it stores inf into a copy of its argument
     if _status(res, 'reachdist', st, out, case):
         R, D = out; outs['reachdist'] = (np.asarray(R), np.asarray(D, dtype=float))
         _cmp_dist(res, 'reachdist', D, oracle, diag_zero=False)
         _cmp_flag(res, 'reachdist', R, D, oracle)
-    st, out = call(bct.distance_wei, _rep(A, case), t=5)
+    st, out = call(bct.distance_wei, _rep(A, case), t=5, retry=10)
     if _status(res, 'distance_wei', st, out, case):
         D, B = out; outs['distance_wei'] = (np.asarray(D, dtype=float), np.asarray(B, dtype=float))
         _cmp_dist(res, 'distance_wei', D, oracle)
@@ -500,7 +528,7 @@ def _run_bin(bct, case, res):
                               ('cert', 'exact', '111')]))
     if n >= 1:
         s = int(case.get('src', 0)) % n
-        st, out = call(bct.breadth, A.copy(), s, t=3)
+        st, out = call(bct.breadth, A.copy(), s, t=3, retry=10)
         if _status(res, 'breadth', st, out, case):
             dist, branch = out
             want = oracle[s].copy()
@@ -510,7 +538,7 @@ def _run_bin(bct, case, res):
                 res['fails'].append(('breadth', 'min-length', {'source': s, 'out': mstr(dd), 'oracle': mstr(want)}))
             res['lines'].append(('breadth n=%d A=%s s=%d' % (n, Aline, s), [('dist', 'exact', mstr(dist)), ('branch', 'exact', istr(branch))]))
     if n >= 2:
-        st, out = call(bct.efficiency_bin, _rep(A, case), t=5)
+        st, out = call(bct.efficiency_bin, _rep(A, case), t=5, retry=10)
         if _status(res, 'efficiency_bin', st, out, case):
             want = meaninv_offdiag(oracle)
             if not close(float(out), want):
@@ -556,26 +584,26 @@ def _run_big(bct, case, res):
     res['stats']['disconnected'] = int(np.isinf(oracle).any()); res['stats']['multihop'] = 1
     res['stats']['big_overflow'] = int(cond['overflow'])
     n0 = len(res['fails'])
-    st, out = call(bct.distance_bin, A.copy(), t=60)
+    st, out = call(bct.distance_bin, A.copy(), t=60, retry=10)
     if _status(res, 'distance_bin', st, out, case):
         _cmp_dist(res, 'distance_bin', out, oracle)
-    st, out = call(bct.reachdist, A.copy(), t=60)
+    st, out = call(bct.reachdist, A.copy(), t=60, retry=10)
     if _status(res, 'reachdist', st, out, case):
         _cmp_dist(res, 'reachdist', out[1], oracle, diag_zero=False); _cmp_flag(res, 'reachdist', out[0], out[1], oracle)
-    st, out = call(bct.breadthdist, A.copy(), t=60)
+    st, out = call(bct.breadthdist, A.copy(), t=60, retry=10)
     if _status(res, 'breadthdist', st, out, case):
         _cmp_dist(res, 'breadthdist', out[1], oracle, diag_zero=False); _cmp_flag(res, 'breadthdist', out[0], out[1], oracle)
-    st, out = call(bct.distance_wei, A.copy(), t=120)
+    st, out = call(bct.distance_wei, A.copy(), t=120, retry=10)
     if _status(res, 'distance_wei', st, out, case):
         _cmp_dist(res, 'distance_wei', out[0], oracle)
         if not np.array_equal(np.where(np.isfinite(oracle), oracle, 0), np.asarray(out[1], dtype=float)):
             res['fails'].append(('distance_wei', 'edge-count', {'why': 'binary graph: B must equal the hop distance'}))
-    st, out = call(bct.distance_wei_floyd, A.copy(), t=60)
+    st, out = call(bct.distance_wei_floyd, A.copy(), t=60, retry=10)
     if _status(res, 'distance_wei_floyd', st, out, case):
         _cmp_dist(res, 'distance_wei_floyd', out[0], oracle)
         if not np.array_equal(np.where(np.isfinite(oracle), oracle, 0), np.asarray(out[1], dtype=float)):
             res['fails'].append(('distance_wei_floyd', 'edge-count', {'why': 'binary graph: hops must equal the hop distance'}))
-    st, out = call(bct.efficiency_bin, A.copy(), t=60)
+    st, out = call(bct.efficiency_bin, A.copy(), t=60, retry=10)
     if _status(res, 'efficiency_bin', st, out, case):
         want = meaninv_offdiag(oracle)
         if not close(float(out), want):
@@ -602,7 +630,7 @@ def _run_wei(bct, case, res):
             ties += int(np.any(np.isfinite(oracle) & (best[k1] == oracle) & (best[k2] == oracle) & offdiag(n)))
     res['stats']['ties'] = int(ties > 0)
     only = case.get('only') == 'floyd'
-    st, out = ('skip', None) if only else call(bct.distance_wei, _rep(Lm0, case), t=5)
+    st, out = ('skip', None) if only else call(bct.distance_wei, _rep(Lm0, case), t=5, retry=10)
     if not only and _status(res, 'distance_wei', st, out, case):
         D, B = out
         _cmp_dist(res, 'distance_wei', D, oracle)
@@ -616,7 +644,7 @@ def _run_wei(bct, case, res):
         W = np.zeros_like(Lm0); W[Lm0 != 0] = 1.0 / Lm0[Lm0 != 0]
         _floyd_block(bct, res, case, W, 'inv', Lm, oracle, best, 0.0, True, rout=not only)
         if not only and n >= 2 and np.all(W <= 1):
-            st, out = call(bct.efficiency_wei, W.copy(), t=5)
+            st, out = call(bct.efficiency_wei, W.copy(), t=5, retry=10)
             if _status(res, 'efficiency_wei', st, out, case):
                 want = meaninv_offdiag(oracle)
                 if not close(float(out), want):
@@ -641,7 +669,7 @@ def _run_log(bct, case, res):
     res['stats']['multihop'] = 1
     only = case.get('only') == 'floyd'
     if tr is None and not only:
-        st, out = call(bct.distance_wei, W.copy(), t=5)
+        st, out = call(bct.distance_wei, W.copy(), t=5, retry=10)
         if _status(res, 'distance_wei', st, out, case):
             _cmp_dist(res, 'distance_wei', out[0], oracle, TOL)
             _cmp_hops(res, 'distance_wei', np.asarray(out[1]), oracle, best, TOL)
@@ -653,9 +681,13 @@ def _run_log(bct, case, res):
 def _run_nav(bct, case, res):
     L = np.array(case['A'], dtype=float); Dm = np.array(case['D'], dtype=float); n = len(L)
     mh = case.get('max_hops')
-    st, out = call(bct.navigation_wu, L.copy(), Dm.copy(), mh, t=case.get('t', 4.0))
+    # with max_hops given the walk is bounded (at most max_hops + 2 steps per pair): it must return (retry, then a verdict);
+    # with max_hops=None termination is not claimed: counted, and bounded by the 20 % rule of timeout_rates
+    st, out = call(bct.navigation_wu, L.copy(), Dm.copy(), mh, t=case.get('t', 4.0), retry=0 if mh is None else 10)
     res['stats']['calls:navigation_wu'] = 1
     if st == 'timeout':
+        if mh is not None:
+            res['fails'].append(('navigation_wu', 'does-not-return', {'max_hops': mh}))
         res['stats']['timeout:navigation_wu'] = 1; return      # termination is not claimed (3-cycle of ties, max_hops=None)
     if st != 'ok':
         res['fails'].append(('navigation_wu', 'raises', {'exception': out})); return
@@ -716,22 +748,22 @@ def _run_bad(bct, case, res):
     what = case['what']
     res['stats']['malformed:' + what] = 1
     if what == 'bad-transform':
-        st, out = call(bct.distance_wei_floyd, A.copy(), 'sqrt', t=3)
+        st, out = call(bct.distance_wei_floyd, A.copy(), 'sqrt', t=3, retry=10)
         if not (st == 'exc' and exc_kind(out) == 'ValueError'):
             res['fails'].append(('distance_wei_floyd', 'rejects-unknown-transform', {'status': st, 'out': str(out)[:100]}))
         res['lines'].append(('floyd n=%d A=%s transform=sqrt' % (n, mstr(A)), [('error', 'exact', 'ValueError')]))
     elif what == 'self-loops':
         # nonzero diagonal: outside the property's domain (BCT convention: empty diagonal); correspondence only
-        st, out = call(bct.distance_wei_floyd, A.copy(), None, t=3)
+        st, out = call(bct.distance_wei_floyd, A.copy(), None, t=3, retry=10)
         if st == 'ok':
             SPL, hops, Pmat = out
             res['lines'].append(('floyd n=%d A=%s transform=none' % (n, mstr(A)),
                                  [('SPL', 'exact', mstr(SPL)), ('hops', 'exact', istr(hops)), ('P', 'exact', istr(Pmat))]))
-        st, out = call(bct.distance_wei, A.copy(), t=3)
+        st, out = call(bct.distance_wei, A.copy(), t=3, retry=10)
         if st == 'ok':
             res['lines'].append(('dijkstra n=%d A=%s' % (n, mstr(A)), [('D', 'exact', mstr(out[0])), ('B', 'exact', istr(out[1]))]))
         B = (A != 0).astype(float)
-        st1, o1 = call(bct.distance_bin, B.copy(), t=3); st2, o2 = call(bct.breadthdist, B.copy(), t=3); st3, o3 = call(bct.reachdist, B.copy(), t=3)
+        st1, o1 = call(bct.distance_bin, B.copy(), t=3, retry=10); st2, o2 = call(bct.breadthdist, B.copy(), t=3, retry=10); st3, o3 = call(bct.reachdist, B.copy(), t=3, retry=10)
         if st1 == st2 == st3 == 'ok':
             res['lines'].append(('bin n=%d A=%s' % (n, mstr(B)),
                                  [('D', 'exact', mstr(o1)), ('bR', 'exact', istr(o2[0])), ('bD', 'exact', mstr(o2[1])),
@@ -984,8 +1016,9 @@ TIMEOUT_RATE_LIMIT = float(os.environ.get('VERIF_TIMEOUT_RATE', '0.20'))
 
 
 def timeout_rates(ck):
-    """every watchdog hit is counted per routine (`timeout:<f>` / `calls:<f>` in the evidence); a routine that times out on
-    more than 20 % of its calls is a break of the check (the property is then unobserved for it), not a pass"""
+    """every watchdog hit is counted per routine (`timeout:<f>` / `calls:<f>` in the evidence). For every routine except
+    navigation_wu(max_hops=None) a timeout (after the 10x retry) is already a violation `does-not-return`; for the unbounded
+    navigation calls, whose termination is not claimed, more than 20 % timeouts is a break (the property is then unobserved)"""
     rates = {}
     for k, v in list(ck.dist.items()):
         if k.startswith('timeout:'):
